@@ -96,6 +96,15 @@ LABELS_AWKWARD = [
     ["#h", "@m", "1.5", "--", "ñ", "a&b"],
     ["%p", "!n", ".5", "1-2", "å", "a=b"],
 ]
+# two feature classes in one label (quote / bracket-like / numeric-looking / sign / non-ASCII / exponent form);
+# every pair of classes occurs in at least one label of every row
+LABELS_COMBINED = [
+    ["'-1'", "[0]é", "1e5'", "é-3", "+7.5[", "0x1'é"],
+    ['"+2"', "{1}ß", '2E3"', "ß-0", "-.5{", '1e-5"ß'],
+    ["'1e5'", "<2>ü", "-3'", "ü+1", "+0<", "-1e5ü"],
+    ["#-1.5", "@0ñ", "1.5#", "ñ--1", "+@7", "#ñ1e2"],
+    ["%+3", "!1å", ".5%", "å1-2", "-!0", "%å2E2"],
+]
 LABELS_SPACE = [
     ["Homo sapiens", "Mus", "c", "d", "e", "f"],
     ["a", "Pan troglodytes", "c", "d", "e", "f"],
@@ -154,6 +163,14 @@ def bounds(tier):
                    "taxon-permutation differential for n<=33" % ((", 999,1000,1001", ", 130, 257") if tier != "quick" else ("", "")),
             "refuse": "all 4032 invalid 3x3 matrices over {-1,0,1,2}, single asymmetric/negative/NaN/inf deviations of a "
                       "4x4 matrix at every position, non-square and non-2-D shapes; then a valid call",
+            "derived (audit 2)": "every tree with <=4 leaves (<=1 unary node; thorough: 5 leaves / 2 unary nodes) and every "
+                                 "upgma/nj result for the 64 n=4 matrices over {a,b}: 8 + 3 per inner node + 3 binary-form "
+                                 "objects handed out by the library (copies, parsed trees/nodes, attached and copied inner "
+                                 "nodes, binary forms), each fed into queries, writer, reader, copy, as_binary, Tree()",
+            "result identity (audit 2)": "every hand-built tree: as_binary result shares no node with its argument (also "
+                                         "single leaf / already binary), as_graph result emptied and re-requested",
+            "combined labels (audit 2)": "label set with two awkward feature classes per label (+ a blank-and-quote label in "
+                                         "the blank set), read back plain and with 2 whitespace decorations",
             "deep": "caterpillars nested %s levels must work; 30000 and 100000 levels may be refused but must not end the "
                     "process (9 operations, forked)" % ("1100" if tier == "quick" else "999,1000,1001,1100,3000"),
         },
@@ -620,7 +637,8 @@ def label_sets(n, seed):
         ("plain", LABELS_PLAIN[k][:n]),
         ("awkward", LABELS_AWKWARD[k][:n]),
         ("numeric_reversed", [str(n - 1 - i) for i in range(n)]),
-        ("blank", LABELS_SPACE[k][:n]),
+        ("blank", [("it's a 'b'" if i == (k + 3) % 6 else x) for i, x in enumerate(LABELS_SPACE[k])][:n]),
+        ("combined", LABELS_COMBINED[k][:n]),
         # empty piece: one label is the empty string (first / inner / last / only, by seed and size)
         ("empty", [("" if i == k % max(n, 1) else x) for i, x in enumerate(LABELS_PLAIN[k][:n])]),
         # boundary count: one label more than there are leaves
@@ -840,10 +858,10 @@ def check_tree(ctx, case):
     if str(tree) != tree.to_newick():
         V("Tree.__str__", "differs", "str(tree) differs from to_newick()", tree.to_newick(), str(tree))
     for lname, labels in label_sets(n, seed):
-        combos = [(True, None), (False, None)] + ([(True, r) for r in ROUNDS] if lname not in ("blank", "empty", "longer") else [])
+        combos = [(True, None), (False, None)] + ([(True, r) for r in ROUNDS] if lname not in ("blank", "empty", "longer", "combined") else [])
         lcls = "labels_" + lname
         labels0 = None if labels is None else list(labels)
-        if lname in ("empty", "longer") and pal not in ("ones", "distinct"):
+        if lname in ("empty", "longer", "combined") and pal not in ("ones", "distinct"):
             continue
         for incl, rd in combos:
             ocls = "%s|%s|%s" % (cls, lcls, "no_distance" if not incl else ("exact" if rd is None else "rounded"))
@@ -872,6 +890,8 @@ def check_tree(ctx, case):
             styles = ["plain"]
             if lname in ("none", "plain", "blank") and rd is None:
                 styles += ["comma_space", "multiline", "colon_space", "no_semicolon"]
+            elif lname == "combined":
+                styles += ["multiline", "colon_space"]          # awkward label AND whitespace decoration
             for style in styles:
                 s2 = M.decorate(s, style)
                 ctx.count("newick_read")
@@ -1038,6 +1058,12 @@ def check_tree(ctx, case):
                     break
         if not bad and extract(root) != impl_spec:
             bad = ("argument_modified", impl_spec, extract(root))
+        if not bad:
+            # result identity: a NEW tree, also when nothing has to be done (already binary, single leaf)
+            bnodes = all_nodes(b if target == "node" else b.root)
+            if b is tree or b is root or {id(x) for x in bnodes} & {id(x) for x in inodes}:
+                bad = ("result_is_or_shares_operand", "new nodes", "shared TreeNode objects")
+            ctx.count("identity_checks")
         if bad:
             V("as_binary(%s)" % target, bad[0], "binary form differs from the tree", bad[1], bad[2], pcls)
 
@@ -1049,6 +1075,19 @@ def check_tree(ctx, case):
         V("as_graph", "raises_" + type(e).__name__, "as_graph raised", "graph", repr(e))
         got = None
     if got is not None:
+        # result identity: the graph is a new object every time; emptying it changes neither the tree nor the next graph
+        try:
+            g.clear()
+            g.add_edge("x", "y", distance=-1.0)
+            g2 = tree.as_graph()
+            got2 = {(u, v): d for u, v, d in g2.edges(data="distance")}
+            ctx.count("identity_checks")
+            if g2 is g or got2 != got or not same_spec(extract(root), impl_spec):
+                V("as_graph", "result_shared_between_calls", "editing a returned graph changed the tree / the next graph",
+                  sorted(map(repr, got.items())), sorted(map(repr, got2.items())))
+        except Exception as e:  # noqa: BLE001
+            V("as_graph", "second_call_raises_" + type(e).__name__, "as_graph after editing the first result raised", None, repr(e))
+
         def rep(s):
             return s if isinstance(s, int) else tuple(rep(c) for c, _ in s)
 
@@ -1903,6 +1942,250 @@ def run_deep(shard, ctx):
     ctx.sample(case)
 
 
+
+# ---------------------------------------------------------------------------
+# derived inputs (second audit, E): every object the library hands out goes into every other operation
+# ---------------------------------------------------------------------------
+def _sub_specs(spec):
+    """(path, sub-specification) of every inner node below the root, preorder"""
+    out = []
+
+    def rec(s, path):
+        if isinstance(s, int):
+            return
+        for k, (c, _) in enumerate(s):
+            if not isinstance(c, int):
+                out.append((path + (k,), c))
+            rec(c, path + (k,))
+
+    rec(spec, ())
+    return out
+
+
+def _node_at(root, path):
+    for k in path:
+        root = root.children[k]
+    return root
+
+
+def _zeroed(spec):
+    return spec if isinstance(spec, int) else [[_zeroed(c), 0.0] for c, _ in spec]
+
+
+def verify_derived(ctx, case, how, obj, spec):
+    """obj: Tree or TreeNode obtained from the library (how = derivation); spec: what it has to be.  Applies every
+    operation of the property to it and compares with the model built from spec."""
+    from biotite.sequence.phylo import Tree, TreeError, TreeNode, as_binary
+
+    is_tree = isinstance(obj, Tree)
+    node = obj.root if is_tree else obj
+    cls = "%s|%s" % (how, tree_class(spec))
+
+    def V(op, fail, msg, exp=None, got=None):
+        ctx.violation("derived|%s_%s|%s" % (op, fail, cls), msg + " (input obtained by %s)" % how, case, exp, got)
+
+    def guard(op, fn):
+        try:
+            return True, fn()
+        except Exception as e:  # noqa: BLE001
+            V(op, "raises_" + type(e).__name__, "%s raised on a derived object" % op, "result", repr(e))
+            return False, None
+
+    ctx.count("derived_objects")
+    ok, got = guard("extract", lambda: extract(node))
+    if not ok:
+        return
+    if not same_spec(got, spec):
+        V("derivation", "wrong_structure", "the derived object is not the expected tree", spec, got)
+        return
+    mroot, mnodes = M.build(spec)
+    leaves_idx = M.leaf_indices(mroot)
+    want_d = M.all_leaf_distances(spec)
+    inodes = all_nodes(node)
+    leaf_of = {x.index: x for x in inodes if x.is_leaf()}
+    # queries
+    for (i, j), w in want_d.items():
+        ok, g = guard("distance_to", lambda: leaf_of[i].distance_to(leaf_of[j]))
+        if not ok:
+            return
+        if abs(g - w) > tol(w):
+            V("distance_to", "value", "distance differs from the explicit path sum", w, g)
+            return
+        ok, a = guard("lowest_common_ancestor", lambda: leaf_of[i].lowest_common_ancestor(leaf_of[j]))
+        if ok and (a is None or not set(M.leaf_indices(M.lca(_leaf(mnodes, i), _leaf(mnodes, j)))) == {int(v) for v in a.get_indices()}):
+            V("lowest_common_ancestor", "wrong_node", "LCA spans other leaves than in the model", None, None)
+            return
+    # writer (through the model reader) and reader
+    for incl in (True, False):
+        ok, sN = guard("to_newick", lambda: obj.to_newick(include_distance=incl))
+        if not ok:
+            continue
+        if not is_tree:
+            if incl and node.parent is not None:
+                # a node that hangs in a tree writes its own distance to the parent as top-level length (documented
+                # example: "(0:5.0,1:7.0):3.0"); checked here, then replaced by the root's 0.0 for the comparison
+                tail = ":%s" % node.distance
+                if not sN.endswith(tail):
+                    V("to_newick", "top_length", "an attached node does not end with its own distance", tail, sN[-30:])
+                    continue
+                sN = sN[: -len(tail)] + ":0.0"
+            sN += ";"
+        try:
+            bad = _cmp_parsed(M.newick_parse(sN), spec, None, incl, None, spec)
+        except M.NewickError as e:
+            bad = ("not_newick", "Newick", str(e))
+        if bad:
+            V("to_newick", bad[0], "written string does not describe the object: " + sN[:150], bad[1], bad[2])
+            continue
+        if sorted(leaves_idx) == list(range(len(leaves_idx))):
+            ok, t2 = guard("from_newick", lambda: Tree.from_newick(sN))
+            if ok:
+                bad = _cmp_clades(M.clade_map(spec if incl else _zeroed(spec)), extract(t2.root), "exact", None)
+                if bad:
+                    V("from_newick", bad[0], "round trip of a derived object differs", bad[1], bad[2])
+    # copy
+    ok, c = guard("copy", lambda: obj.copy())
+    if ok:
+        cn = c.root if is_tree else c
+        if not same_spec(extract(cn), spec) or {id(x) for x in all_nodes(cn)} & {id(x) for x in inodes}:
+            V("copy", "differs_or_shares", "copy of a derived object differs or shares nodes", spec, extract(cn))
+        else:
+            try:
+                # (the copy of an attached node drops the distance to the parent, which == compares: skipped there)
+                if node.parent is None and not (c == obj and hash(c) == hash(obj)):
+                    V("copy", "not_equal", "copy of a derived object does not compare equal", True, False)
+            except Exception:  # noqa: BLE001
+                ctx.count("unspecified")
+    # binary form
+    try:
+        ok, b = True, as_binary(obj)
+    except Exception as e:  # noqa: BLE001
+        ok, b = False, None
+        free_unary = (not is_tree and node.parent is None and not node.is_root() and not isinstance(spec, int)
+                      and len(spec) == 1)
+        ctx.violation("as_binary(TreeNode)|raises_%s|parentless_unary_node_not_marked_root" % type(e).__name__ if free_unary
+                      else "derived|as_binary_raises_%s|%s" % (type(e).__name__, cls),
+                      "as_binary raised on a derived object (input obtained by %s)" % how, case, "binary node", repr(e))
+    if ok:
+        bn = b.root if isinstance(b, Tree) else b
+        if isinstance(b, Tree) != is_tree or not isinstance(bn, TreeNode):
+            V("as_binary", "wrong_type", "result type does not follow the argument type", type(obj).__name__, type(b).__name__)
+        else:
+            bspec = extract(bn)
+            bd = M.all_leaf_distances(bspec)
+            if any(a != 2 for a in arities(bspec)):
+                V("as_binary", "not_binary", "result is not binary", 2, arities(bspec))
+            elif set(bd) != set(want_d) or any(abs(bd[k] - w) > tol(w) for k, w in want_d.items()):
+                V("as_binary", "leaf_distance", "binary form changed leaf-to-leaf distances", want_d, bd)
+            elif not {k[0] for k in M.clade_map(spec)} <= {k[0] for k in M.clade_map(bspec)}:
+                V("as_binary", "clade_lost", "binary form lost a clade", None, None)
+            elif not same_spec(extract(node), spec):
+                V("as_binary", "argument_modified", "as_binary changed its argument", spec, extract(node))
+    if is_tree:
+        if not check_leaf_set(ctx, "derived", obj, len(leaves_idx), case, cls):
+            return
+        for (i, j), w in want_d.items():
+            ok, g = guard("get_distance", lambda: obj.get_distance(i, j))
+            if ok and abs(g - w) > tol(w):
+                V("get_distance", "value", "get_distance differs from the explicit path sum", w, g)
+                break
+        ok, g = guard("as_graph", lambda: obj.as_graph())
+        if ok and g.number_of_edges() != len(mnodes) - 1:
+            V("as_graph", "edge_count", "graph has a wrong number of edges", len(mnodes) - 1, g.number_of_edges())
+    else:
+        # a parentless node can become a tree (last: Tree() marks it as root)
+        valid = sorted(leaves_idx) == list(range(len(leaves_idx)))
+        fresh = node.copy() if node.parent is not None else node
+        try:
+            t = Tree(fresh)
+            if not valid:
+                ctx.count("unspecified")            # duplicates are impossible here; a gap must raise
+                V("Tree", "accepts_index_gap", "leaf indices with a gap were accepted", "TreeError", leaves_idx)
+            else:
+                check_leaf_set(ctx, "derived_Tree", t, len(leaves_idx), case, cls)
+        except TreeError:
+            if valid:
+                V("Tree", "raises_TreeError", "a valid derived node was refused as root", "tree", None)
+        except Exception as e:  # noqa: BLE001
+            V("Tree", "raises_" + type(e).__name__, "Tree() on a derived node raised", "tree / TreeError", repr(e))
+
+
+def check_derived(ctx, case):
+    from biotite.sequence.phylo import Tree, TreeNode, as_binary, neighbor_joining, upgma
+
+    spec = case["spec"]
+    if "matrix" in case:
+        arr = np.array(tri_to_matrix(case["n"], case["matrix"]))
+        tree = (upgma if case["algo"] == "upgma" else neighbor_joining)(arr)
+    else:
+        tree = Tree(build_impl(spec)[0])
+    impl_spec = extract(tree.root)
+    root = tree.root
+    s_exact, s_nodist = tree.to_newick(), tree.to_newick(include_distance=False)
+    derived = [
+        ("tree_itself" if "matrix" not in case else case["algo"] + "_result", lambda: tree, impl_spec),
+        ("Tree.copy", lambda: tree.copy(), impl_spec),
+        ("Tree.from_newick", lambda: Tree.from_newick(s_exact), impl_spec),
+        ("Tree.from_newick_without_lengths", lambda: Tree.from_newick(s_nodist), _zeroed(impl_spec)),
+        ("Tree.from_newick_decorated", lambda: Tree.from_newick(M.decorate(s_exact, "multiline")), impl_spec),
+        ("TreeNode.from_newick", lambda: TreeNode.from_newick(s_exact[:-1])[0], impl_spec),
+        ("root.copy", lambda: root.copy(), impl_spec),
+        ("Tree.root", lambda: root, impl_spec),
+    ]
+    for path, sub in _sub_specs(impl_spec):
+        derived.append(("inner_node.copy", (lambda p=path: _node_at(root, p).copy()), sub))
+        derived.append(("inner_node", (lambda p=path: _node_at(root, p)), sub))
+        derived.append(("TreeNode.from_newick_of_inner_node",
+                        (lambda p=path: TreeNode.from_newick(_node_at(root, p).to_newick())[0]), sub))
+    for how, make, want in derived:
+        try:
+            obj = make()
+        except Exception as e:  # noqa: BLE001
+            ctx.violation("derived|derivation_raises_%s|%s" % (type(e).__name__, how), "could not derive the object", case,
+                          "object", repr(e))
+            continue
+        verify_derived(ctx, case, how, obj, want)
+    # the binary forms as inputs: structure is their own (checked above to be a correct binary form)
+    for how, make in (("as_binary(Tree)", lambda: as_binary(tree)), ("as_binary(TreeNode)", lambda: as_binary(root)),
+                      ("as_binary(Tree.copy)", lambda: as_binary(tree.copy()))):
+        try:
+            obj = make()
+            own = extract(obj.root if isinstance(obj, Tree) else obj)
+        except Exception as e:  # noqa: BLE001
+            ctx.violation("derived|derivation_raises_%s|%s" % (type(e).__name__, how), "could not derive the object", case,
+                          "object", repr(e))
+            continue
+        verify_derived(ctx, case, how, obj, own)
+    ctx.outcome(M.canon(impl_spec))
+
+
+def derived_cases(tier, seed):
+    b = DIST_BASES[seed % len(DIST_BASES)]
+    out = []
+    for n in (1, 2, 3, 4) if tier == "quick" else (1, 2, 3, 4, 5):
+        for sh in M.shapes(n, 1 if (tier == "quick" or n == 5) else 2):
+            ne = M.shape_stats(sh)[3]
+            perm = list(range(n)) if n < 3 else list(range(1, n)) + [0]
+            out.append({"kind": "derived", "spec": M.instantiate(sh, perm, [(k + 1) * b for k in range(ne)])})
+    pal = VALUE_PALETTES[seed % len(VALUE_PALETTES)]
+    for tri in itertools.product(pal[1:3], repeat=6):
+        for algo in ("upgma", "neighbor_joining"):
+            out.append({"kind": "derived", "spec": None, "algo": algo, "n": 4, "matrix": list(tri)})
+    return out
+
+
+def run_derived(shard, ctx):
+    for k, case in enumerate(derived_cases(ctx.tier, ctx.seed)):
+        if k % shard["parts"] != shard["part"]:
+            continue
+        if not ctx.journal(case):
+            continue
+        ctx.ev(1, 1)
+        check_derived(ctx, case)
+        if len(ctx.samples) < 1 and case.get("spec") is not None and not isinstance(case["spec"], int):
+            ctx.sample(case)
+
+
 # ---------------------------------------------------------------------------
 # shards
 # ---------------------------------------------------------------------------
@@ -1954,6 +2237,8 @@ def shards(tier, seed):
     for p in range(4 if q else 8):
         out.append({"kind": "big", "part": p, "parts": 4 if q else 8, "fam": "big"})
     out.append({"kind": "refuse", "fam": "refuse"})
+    for p in range(2 if q else 8):
+        out.append({"kind": "derived", "part": p, "parts": 2 if q else 8, "fam": "derived"})
     for p in range(3):
         out.append({"kind": "deep", "part": p, "parts": 3, "fam": "deep"})
     # trees
@@ -2012,6 +2297,8 @@ def run_shard(shard, ctx):
         run_refuse(shard, ctx)
     elif k == "deep":
         run_deep(shard, ctx)
+    elif k == "derived":
+        run_derived(shard, ctx)
     else:
         raise ValueError(shard)
 
@@ -2235,6 +2522,8 @@ def replay(case, ctx):
         check_refuse(ctx, case)
     elif k == "deep":
         check_deep(ctx, case)
+    elif k == "derived":
+        check_derived(ctx, case)
     else:
         raise ValueError(case)
 
